@@ -1045,19 +1045,26 @@ class ExperimentTopology(Topology):
                             isl.get_reservation_info().reservation_state == reservation_state:
                         interfaces.add(i)
 
-        # all deletes are supposed to be idempotent
+        # all deletes are supposed to be idempotent: an element that went away together
+        # with an enclosing pruned element is skipped
+        def still_present(e) -> bool:
+            return e.node_id in self.graph_model.list_all_node_ids()
+
         for n in nodes:
             self._prune_node(n)
 
         # need parents too
         for c, n in components:
-            self._prune_components(c, n)
+            if still_present(c):
+                self._prune_components(c, n)
 
         for ns in nss:
-            self._prune_ns(ns)
+            if still_present(ns):
+                self._prune_ns(ns)
 
         for i in interfaces:
-            self._prune_interface(i)
+            if still_present(i):
+                self._prune_interface(i)
 
 
 class SubstrateTopology(Topology):
